@@ -13,12 +13,20 @@ import asyncio
 
 from bumble import crypto, hci, smp
 from pyvc.contracts import Any, Bool, Bytes, Callback, Const, Event, Inst, Int, IntRange, OneOf, Opaque, contract, implies, lemma, model
+from pyvc.ext_c13 import drive
 
 ENVIRONMENT = [
     'phase-2 handlers: the cryptographic functions (crypto.c1, s1, f4, f5, f6, g2, r) are stubs returning arbitrary '
     'byte strings; whether an honest peer\'s value matches is crypto (C14) plus the two-party exchange, not claimed here',
-    'the user prompts (prompt_user_for_confirmation / _numeric_comparison) and display_or_input_passkey are recorded '
-    'calls: what the delegate answers, and when, is environment',
+    'display_or_input_passkey is a recorded call. The confirmation prompts (prompt_user_for_confirmation / '
+    '_numeric_comparison) are the real functions; the delegate (confirm / compare_numbers) is a stub answering accept, '
+    'reject or raising (ghost.answer), and it answers AT ONCE: the prompt coroutine handed to cancel_on_disconnection is '
+    'executed at the call (A1), so "the user answers after the peer\'s DHKey check arrived" is not one execution here; '
+    'it is covered by the two handler contracts separately (the future the responder\'s continuation awaits exists and '
+    'is unresolved when the random handler returns; the DHKey handler sends nothing while that future is unresolved)',
+    'an `await` on the confirmation future (ghost.confirmed = it was resolved) does what CPython does: resolved -> goes on; '
+    'pending -> the coroutine stops there (engine: SuspendSig). That nobody but Session code resolves the future is by '
+    'reading (grep wait_before_continuing: 5 places, all in the two handlers under contract)',
     'Session.on_smp_command catches any exception of a handler and sends Pairing Failed (UNSPECIFIED_REASON) WITHOUT '
     'calling on_pairing_failure: the AssertionError exits of the handlers (no confirm value received yet) are listed in '
     '`raises`; that the session is not failed locally in that case is outside the statement\'s three checks',
@@ -82,8 +90,65 @@ def rec_prompt(ghost, *args):
     ghost.prompts = ghost.prompts + 1
 
 
+def user_answers(ghost, *args, **kwargs):
+    """PairingDelegate.confirm() / compare_numbers(code, digits): the local user's answer (ghost.answer: 0 reject,
+    1 accept, 2 the delegate raises)"""
+    ghost.prompts = ghost.prompts + 1
+    if ghost.answer == 2:
+        raise RuntimeError('delegate failed')
+    return ghost.answer == 1
+
+
 def rec_cancel_on_disconnection(ghost, awaitable):
     ghost.tasks = ghost.tasks + 1
+    drive(awaitable)  # native harness: run the coroutine up to its first pending await (symbolically it ran at its call)
+
+
+def new_future(ghost):
+    """loop.create_future(): a new, unresolved future"""
+    ghost.futures = ghost.futures + 1
+    ghost.confirmed = False
+    return ghost.fresh_waiter
+
+
+def note_await(ghost):
+    """bookkeeping at `await <confirmation future>` (symbolically: await hook; natively: NativeWaiter.__await__)"""
+    ghost.awaited = ghost.awaited + 1
+    ghost.dhkey_at_await = ghost.n_dhkey
+
+
+def is_confirmed(ghost):
+    return ghost.confirmed
+
+
+def confirmation_await_hook(path, v, node):
+    """await on the session's confirmation future: resolved (ghost.confirmed) -> the coroutine goes on; still
+    pending -> it stops here (the rest of its body runs in a later activation, if ever)"""
+    from pyvc.engine import SuspendSig
+    from pyvc.values import Ref
+
+    if isinstance(v, Ref) and getattr(getattr(path.obj(v), 'model', None), 'name', None) == 'ghost:Waiter#h':
+        path.cfg.spec_eval(path, note_await, {})
+        if not path.branch(path.cfg.spec_eval(path, is_confirmed, {})):
+            raise SuspendSig()
+        return None
+    return v
+
+
+class NativeWaiter:
+    """native stand-in of the confirmation future: awaiting it returns at once when ghost.confirmed, else never"""
+
+    def __init__(self, ghost):
+        self._ghost = ghost
+
+    def __await__(self):
+        note_await(self._ghost)
+        if not self._ghost.confirmed:
+            yield self
+        return None
+
+    def __deepcopy__(self, memo):
+        return self
 
 
 model('ghost:Future#h', fields={}, methods={
@@ -101,11 +166,18 @@ model('ghost:Manager#h', fields=dict(device=Inst('ghost:Device#h')), methods={
 model('ghost:Link#h', fields=dict(handle=IntRange(0, 0xEFF)), methods={
     'cancel_on_disconnection': Callback('cancel_on_disconnection', effect=rec_cancel_on_disconnection),
 })
-def rec_release(ghost, value):
+def rec_release(ghost, waiter, value):
     ghost.released = ghost.released + 1
+    if waiter is ghost.fresh_waiter:
+        ghost.released_fresh = ghost.released_fresh + 1
+    ghost.confirmed = True
 
 
-model('ghost:Waiter#h', fields={}, methods={'set_result': Callback('set_result', effect=rec_release)})
+model('ghost:Waiter#h', fields={}, methods={'set_result': Callback('set_result', effect=rec_release, with_self=True)},
+      build=lambda fields, builder: NativeWaiter(builder.ghost))
+model('ghost:Delegate#h', fields={}, methods={'confirm': Callback('confirm', effect=user_answers, is_async=True, raises=(RuntimeError,)),
+                                             'compare_numbers': Callback('compare_numbers', effect=user_answers, is_async=True, raises=(RuntimeError,))})
+model('ghost:PairingConfig#h', fields=dict(delegate=Inst('ghost:Delegate#h')))
 model('bumble.crypto:EccKey#h', fields=dict(x=Bytes, y=Bytes), methods={'dh': Callback('dh', effect=lambda ghost, x, y: ghost.v_dh)})
 model('bumble.smp:OobSharedData#h', fields=dict(c=Bytes, r=Bytes))
 
@@ -114,10 +186,15 @@ H_GHOST = dict(
     n_enc=Int, enc_key=Bytes, failure_reports=Int, reported_reason=Int, stored=Int, result_done=Bool, result_ok=Bool, prompts=Int, tasks=Int,
     # what the crypto stubs return (arbitrary)
     v_c1=Bytes, v_s1=Bytes, v_f4=Bytes, v_mackey=Bytes, v_f5ltk=Bytes, v_f6a=Bytes, v_f6b=Bytes, v_g2=Int, v_r=Bytes, f6_calls=Int, v_dh=Bytes, released=Int,
+    # the local user and the confirmation future (Session.wait_before_continuing): answer 0 reject / 1 accept / 2 the delegate raises;
+    # confirmed = the future was resolved; fresh_waiter = what loop.create_future() returns next; awaited / dhkey_at_await = see note_await
+    answer=IntRange(0, 2), confirmed=Bool, futures=Int, released_fresh=Int, awaited=Int, dhkey_at_await=Int,
+    fresh_waiter=Inst('ghost:Waiter#h'), loop=Inst('ghost:Loop#h'),
 )
 H_MODIFIES_OUT = ['ghost.n_failed_cmd', 'ghost.fail_reason', 'ghost.n_random', 'ghost.random_value', 'ghost.n_confirm', 'ghost.n_dhkey',
                   'ghost.dhkey_value', 'ghost.n_other', 'ghost.n_enc', 'ghost.enc_key', 'ghost.failure_reports', 'ghost.reported_reason',
-                  'ghost.result_done', 'ghost.result_ok', 'ghost.prompts', 'ghost.tasks', 'ghost.f6_calls', 'ghost.released']
+                  'ghost.result_done', 'ghost.result_ok', 'ghost.prompts', 'ghost.tasks', 'ghost.f6_calls', 'ghost.released',
+                  'ghost.confirmed', 'ghost.futures', 'ghost.released_fresh', 'ghost.awaited', 'ghost.dhkey_at_await']
 
 
 def stub_f6(ghost, *args):
@@ -134,9 +211,9 @@ CRYPTO_STUBS = {
     crypto.f6: Callback('f6', effect=stub_f6),
     crypto.g2: Callback('g2', effect=lambda ghost, *args: ghost.v_g2),
     crypto.r: Callback('r', effect=lambda ghost: ghost.v_r),
-    asyncio.get_running_loop: Callback('get_running_loop', returns=Inst('ghost:Loop#h')),
+    asyncio.get_running_loop: Callback('get_running_loop', effect=lambda ghost: ghost.loop),
 }
-model('ghost:Loop#h', fields={}, methods={'create_future': Callback('create_future', returns=Inst('ghost:Waiter#h'))})
+model('ghost:Loop#h', fields={}, methods={'create_future': Callback('create_future', effect=new_future)})
 
 model(
     'bumble.smp:Session#h',
@@ -148,11 +225,9 @@ model(
         passkey=OneOf(None, IntRange(0, 999999)), passkey_step=IntRange(0, 19), passkey_display=Bool,
         peer_random_value=OneOf(None, Bytes), peer_public_key_x=Bytes, peer_public_key_y=Bytes, ecc_key=Inst('bumble.crypto:EccKey#h'),
         peer_oob_data=OneOf(None, Inst('bumble.smp:OobSharedData#h')), wait_before_continuing=OneOf(None, Inst('ghost:Waiter#h')),
-        passkey_ready=Event(),
+        passkey_ready=Event(), pairing_config=Inst('ghost:PairingConfig#h'),
     ),
     methods={
-        'prompt_user_for_confirmation': Callback('prompt_user_for_confirmation', effect=rec_prompt),
-        'prompt_user_for_numeric_comparison': Callback('prompt_user_for_numeric_comparison', effect=rec_prompt),
         'display_or_input_passkey': Callback('display_or_input_passkey', effect=rec_prompt),
     },
 )
@@ -163,7 +238,8 @@ model('bumble.smp:SMP_Pairing_Public_Key_Command#h', fields=dict(public_key_x=By
 
 H_INLINE = ['Session.check_expected_value', 'Session.send_pairing_failed', 'Session.send_command', 'Session.on_pairing_failure',
             'Session.send_pairing_random_command', 'Session.send_pairing_confirm_command', 'Session.send_pairing_dhkey_check_command',
-            'Session.send_public_key_command', 'Session.start_encryption', 'Session.pkx', 'Session.pka', 'Session.pkb', 'Session.nx', 'Session.na',
+            'Session.send_public_key_command', 'Session.start_encryption', 'Session.prompt_user_for_confirmation',
+            'Session.prompt_user_for_numeric_comparison', 'Session.pkx', 'Session.pka', 'Session.pkb', 'Session.nx', 'Session.na',
             'Session.nb', 'ProtocolError.__init__', 'BaseError.__init__']
 
 
@@ -292,15 +368,45 @@ def sc_random_checks(self):
     return self.is_initiator and (self.pairing_method == PM.JUST_WORKS or self.pairing_method == PM.NUMERIC_COMPARISON)
 
 
+def asks_user(self):
+    """Just Works (confirmation) and Numeric Comparison: the local user is asked before the pairing goes on"""
+    return self.pairing_method == PM.JUST_WORKS or self.pairing_method == PM.NUMERIC_COMPARISON
+
+
 def sc_random_post(self, command, old, ghost):
     checks = sc_random_checks(old.self)
     ignored = old.self.pairing_method == PM.PASSKEY and old.self.passkey is None
     match = old.self.confirm_value == ghost.v_f4
     untouched = (self.passkey_step == old.self.passkey_step and self.ea == old.self.ea and self.eb == old.self.eb
                  and ghost.released == old.ghost.released and ghost.n_dhkey == old.ghost.n_dhkey)
+    # the user's confirmation step is reached (commitment check passed / not this side's to make) ...
+    asked = asks_user(old.self) and not (checks and not match)
+    # ... and the user said no (or the delegate failed)
+    refused = asked and ghost.answer != 1
+    accepted = asked and ghost.answer == 1
     return (
         split(checks and not match, failed_check(self, old, ghost, EC.CONFIRM_VALUE_FAILED) + [untouched], None)
-        + split(not (checks and not match), passed_check(self, old, ghost), None)
+        + split(not (checks and not match) and not refused, passed_check(self, old, ghost), None)
+        + [
+            # -- the local user's answer gates the next step, on BOTH roles (statement: user answers accept/reject) --
+            implies(asked, ghost.prompts == old.ghost.prompts + 1 and ghost.tasks == old.ghost.tasks + 1),
+            implies(not asked, ghost.prompts == old.ghost.prompts),
+            # the responder's next step (its DHKey check, sent by on_smp_pairing_dhkey_check_command) awaits
+            # wait_before_continuing: that future exists, is this step's own, on the side that awaits it
+            implies(asked and not self.is_initiator, self.wait_before_continuing is ghost.fresh_waiter and ghost.futures == old.ghost.futures + 1),
+            # accepted: the initiator sends its DHKey check, the responder releases its own (exactly that future, once)
+            implies(accepted and self.is_initiator, ghost.n_dhkey == old.ghost.n_dhkey + 1 and ghost.dhkey_value == self.ea),
+            implies(accepted and not self.is_initiator, ghost.n_dhkey == old.ghost.n_dhkey and ghost.released_fresh == old.ghost.released_fresh + 1
+                    and ghost.released == old.ghost.released + 1 and ghost.confirmed),
+            implies(asked, ghost.released == old.ghost.released + (1 if accepted and not self.is_initiator else 0)),
+            # refused: Pairing Failed, session failed, and nothing further: no DHKey check, the responder's future stays unresolved
+            implies(refused, ghost.n_failed_cmd == old.ghost.n_failed_cmd + 1 and self.completed
+                    and ghost.failure_reports == old.ghost.failure_reports + (0 if old.self.completed else 1)),
+            implies(refused, ghost.n_dhkey == old.ghost.n_dhkey and ghost.released == old.ghost.released and ghost.n_enc == old.ghost.n_enc
+                    and ghost.n_confirm == old.ghost.n_confirm and ghost.n_other == old.ghost.n_other),
+            implies(refused and not self.is_initiator, not ghost.confirmed),
+            implies(refused and self.pairing_result is not None and not old.self.completed, ghost.result_done and (old.ghost.result_done or not ghost.result_ok)),
+        ]
         + [
             ghost.n_enc == old.ghost.n_enc,  # this step never starts encryption
             implies(ignored, nothing_else_sent(ghost, old) and untouched and self.ltk == old.self.ltk and ghost.prompts == old.ghost.prompts),
@@ -308,7 +414,7 @@ def sc_random_post(self, command, old, ghost):
             implies(checks and match and old.self.pairing_method == PM.PASSKEY, self.passkey_step == old.self.passkey_step + 1),
             # the DHKey check value only leaves the initiator, and only after all rounds / after the user confirmed
             implies(ghost.n_dhkey != old.ghost.n_dhkey, self.is_initiator and ghost.n_dhkey == old.ghost.n_dhkey + 1 and ghost.dhkey_value == self.ea
-                    and (old.self.pairing_method == PM.OOB or (old.self.pairing_method == PM.PASSKEY and self.passkey_step == 20))),
+                    and (old.self.pairing_method == PM.OOB or (old.self.pairing_method == PM.PASSKEY and self.passkey_step == 20) or accepted)),
         ]
     )
 
@@ -322,13 +428,21 @@ contract(
     requires=lambda self, command: [role_ok(self), self.peer_random_value is not None and self.peer_random_value == command.random_value],
     ensures=sc_random_post,
     ensures_names=['mismatch-' + n for n in FAILED_NAMES] + ['mismatch-round-and-checks-untouched', 'match-no-failure', 'match-nothing-reported',
-                                                            'match-completed-unchanged', 'no-encryption-here', 'ignored-without-passkey',
+                                                            'match-completed-unchanged',
+                                                            'user-asked-once-for-just-works-and-numeric-comparison', 'user-not-asked-otherwise',
+                                                            'responder-holds-the-future-its-dhkey-check-awaits',
+                                                            'accepted-initiator-sends-dhkey-check', 'accepted-responder-releases-its-dhkey-check',
+                                                            'future-released-only-by-the-users-acceptance',
+                                                            'refused-pairing-failed-session-completed', 'refused-nothing-further',
+                                                            'refused-responder-future-stays-pending', 'refused-initiator-result-is-error',
+                                                            'no-encryption-here', 'ignored-without-passkey',
                                                             'passkey-round-advances', 'dhkey-check-only-from-initiator-at-the-end'],
     raises={AssertionError: lambda self, old, ghost: [ghost.n_failed_cmd == old.ghost.n_failed_cmd, ghost.n_enc == old.ghost.n_enc, ghost.n_dhkey == old.ghost.n_dhkey,
                                                       self.completed == old.self.completed]},
     modifies=['self.completed', 'self.passkey_step', 'self.r', 'self.ltk', 'self.ea', 'self.eb', 'self.wait_before_continuing'] + H_MODIFIES_OUT,
     inline=H_INLINE,
     stubs=CRYPTO_STUBS,
+    await_hook=confirmation_await_hook,
 )
 
 
@@ -338,10 +452,20 @@ contract(
 def dhkey_post(self, command, old, ghost):
     expected = old.self.eb if self.is_initiator else old.self.ea
     match = expected == command.dhkey_check
-    return split(not match, failed_check(self, old, ghost, EC.DHKEY_CHECK_FAILED), None) + split(match, passed_check(self, old, ghost) + [
+    # a responder whose user was asked (random handler: 'responder-holds-the-future-its-dhkey-check-awaits') holds a confirmation future
+    holding = not self.is_initiator and old.self.wait_before_continuing is not None
+    sends_eb = ghost.n_dhkey == old.ghost.n_dhkey + 1 and ghost.dhkey_value == self.eb
+    return split(not match, failed_check(self, old, ghost, EC.DHKEY_CHECK_FAILED) + [ghost.awaited == old.ghost.awaited], None) + split(match, passed_check(self, old, ghost) + [
         # the initiator may now encrypt with the LTK; the responder answers with its own check value Eb
         implies(self.is_initiator, ghost.n_enc == old.ghost.n_enc + 1 and ghost.enc_key == self.ltk and nothing_else_sent(ghost, old)),
-        implies(not self.is_initiator, ghost.n_enc == old.ghost.n_enc and ghost.n_dhkey == old.ghost.n_dhkey + 1 and ghost.dhkey_value == self.eb),
+        implies(not self.is_initiator, ghost.n_enc == old.ghost.n_enc),
+        implies(not self.is_initiator and not holding, sends_eb and ghost.awaited == old.ghost.awaited),
+        # ... but only once its own user has confirmed: the future is awaited first, nothing is sent before that await,
+        # Eb goes out iff the future was resolved; otherwise nothing at all is sent and the future stays in place
+        implies(holding, ghost.awaited == old.ghost.awaited + 1 and ghost.dhkey_at_await == old.ghost.n_dhkey),
+        implies(holding and old.ghost.confirmed, sends_eb and self.wait_before_continuing is None),
+        implies(holding and not old.ghost.confirmed, nothing_else_sent(ghost, old) and self.wait_before_continuing is not None),
+        ghost.released == old.ghost.released and ghost.confirmed == old.ghost.confirmed,
     ], None)
 
 
@@ -352,13 +476,55 @@ contract(
     ghost=H_GHOST,
     requires=lambda self: role_ok(self),
     ensures=dhkey_post,
-    ensures_names=['mismatch-' + n for n in FAILED_NAMES] + ['match-no-failure', 'match-nothing-reported', 'match-completed-unchanged',
-                                                            'match-initiator-encrypts-with-ltk', 'match-responder-sends-eb'],
+    ensures_names=['mismatch-' + n for n in FAILED_NAMES] + ['mismatch-nothing-awaited', 'match-no-failure', 'match-nothing-reported', 'match-completed-unchanged',
+                                                            'match-initiator-encrypts-with-ltk', 'match-responder-no-encryption', 'match-responder-sends-eb',
+                                                            'match-responder-awaits-its-users-confirmation-first', 'match-confirmed-responder-sends-eb',
+                                                            'match-unconfirmed-responder-sends-nothing', 'match-handler-does-not-confirm-for-the-user'],
     raises={AssertionError: lambda self, old, ghost: [not (old.self.eb if self.is_initiator else old.self.ea), ghost.n_failed_cmd == old.ghost.n_failed_cmd,
                                                       ghost.n_enc == old.ghost.n_enc]},
     modifies=['self.completed', 'self.wait_before_continuing'] + H_MODIFIES_OUT,
     inline=H_INLINE,
     stubs=CRYPTO_STUBS,
+    await_hook=confirmation_await_hook,
+)
+
+
+# ---------------------------------------------------------------------------
+# the two handlers in sequence on the RESPONDER (Just Works with confirmation / Numeric Comparison): the real
+# on_smp_pairing_random_command_secure_connections (the local user answers in it: ghost.answer), then the initiator's
+# DHKey check arrives and the real on_smp_pairing_dhkey_check_command runs.  The responder's own DHKey check -- the
+# message that lets the initiator start encryption and both sides store keys -- leaves iff the local user accepted.
+# ---------------------------------------------------------------------------
+def lemma_responder_waits_for_its_user(s, random_cmd, dhkey_cmd, ghost):
+    s.on_smp_pairing_random_command_secure_connections(random_cmd)
+    assert ghost.n_dhkey == 0, 'no-dhkey-check-before-the-initiators'
+    assert ghost.prompts == 1, 'user-asked'
+    accepted = ghost.answer == 1
+    matched = s.ea == dhkey_cmd.dhkey_check
+    s.on_smp_pairing_dhkey_check_command(dhkey_cmd)
+    assert ghost.n_dhkey == (1 if accepted and matched else 0), 'dhkey-check-sent-iff-user-accepted'
+    assert implies(ghost.n_dhkey == 1, ghost.dhkey_value == s.eb and ghost.dhkey_at_await == 0), 'sent-after-the-await'
+    assert implies(not accepted, s.completed and ghost.n_failed_cmd >= 1 and ghost.failure_reports == 1), 'refusal-fails-the-pairing'
+    assert ghost.n_enc == 0, 'responder-never-starts-encryption'
+
+
+lemma(
+    'responder_waits_for_its_user',
+    lemma_responder_waits_for_its_user,
+    prop='C13',
+    params=dict(s=SESSION_H, random_cmd=Inst('bumble.smp:SMP_Pairing_Random_Command#h'), dhkey_cmd=Inst('bumble.smp:SMP_Pairing_DHKey_Check_Command#h')),
+    ghost=H_GHOST,
+    requires=lambda s, random_cmd, ghost: [
+        role_ok(s), not s.is_initiator, asks_user(s), not s.completed,
+        s.peer_random_value is not None and s.peer_random_value == random_cmd.random_value and len(random_cmd.random_value) > 0,
+        # Pairing Request / Response were exchanged; the check value Ea the stubbed f6 returns is not empty
+        # (the handlers `assert self.preq and self.pres` / `assert expected`)
+        len(s.preq) > 0 and len(s.pres) > 0 and len(ghost.v_f6a) > 0,
+        ghost.n_dhkey == 0 and ghost.n_failed_cmd == 0 and ghost.failure_reports == 0 and ghost.n_enc == 0 and ghost.prompts == 0 and ghost.f6_calls == 0,
+    ],
+    inline=H_INLINE + ['Session.on_smp_pairing_random_command_secure_connections', 'Session.on_smp_pairing_dhkey_check_command'],
+    stubs=CRYPTO_STUBS,
+    await_hook=confirmation_await_hook,
 )
 
 
